@@ -491,8 +491,68 @@ fn apply_fault(root: &Path, id: &str, target: Target, kind: FaultKind, versions:
     }
 }
 
+// ---------------------------------------------------------------- base-thread cache (long threads are built once)
+// A long case whose operations are `P ++ F` with F a run of trailing cache faults is built as: the store that P leaves
+// behind (built once per process, kept as a directory), copied, F applied to the copy.  The faults touch files of
+// `continuity_streams/` only, so the answer of the caches-removed side depends on P and the query alone and is
+// computed once per (P, query) as well (`TRUTH_MEMO`).  Nothing else changes: the copy is byte-identical to a fresh build
+// up to the random ids.
+struct BaseEntry {
+    key: u64,
+    dir: Scratch,
+    id: String,
+    messages: Vec<String>,
+    op_errors: u64,
+}
+static BASE_CACHE: std::sync::Mutex<Vec<BaseEntry>> = std::sync::Mutex::new(Vec::new());
+static TRUTH_MEMO: std::sync::Mutex<Option<HashMap<(u64, String), Ans>>> = std::sync::Mutex::new(None);
+const BASE_CACHE_MIN_OPS: usize = 300;
+fn ops_key(ops: &[Op]) -> u64 {
+    use std::hash::{Hash, Hasher};
+    let mut h = std::collections::hash_map::DefaultHasher::new();
+    serde_json::to_string(ops).unwrap().hash(&mut h);
+    h.finish()
+}
+/// (length of the fault-free-tail prefix P, its key) when the case is built through the base cache
+fn base_split(case: &Case) -> Option<(usize, u64)> {
+    if !case.long {
+        return None;
+    }
+    let split = case.ops.iter().rposition(|o| !matches!(o, Op::Fault { .. })).map(|i| i + 1).unwrap_or(0);
+    if split < BASE_CACHE_MIN_OPS {
+        return None;
+    }
+    Some((split, ops_key(&case.ops[..split])))
+}
+fn base_cache_clear() {
+    BASE_CACHE.lock().unwrap().clear();
+}
+
 /// Builds the history on a fresh store.  Faults hit the real files between operations.
 fn build(case: &Case) -> Built {
+    let Some((split, key)) = base_split(case) else { return build_uncached(case) };
+    let mut cache = BASE_CACHE.lock().unwrap();
+    if !cache.iter().any(|e| e.key == key) {
+        let b = build_uncached(&Case { ops: case.ops[..split].to_vec(), queries: vec![], long: true });
+        if cache.len() >= 2 {
+            cache.remove(0); // at most two base stores on disk
+        }
+        cache.push(BaseEntry { key, dir: b.scratch, id: b.id, messages: b.messages, op_errors: b.op_errors });
+    }
+    let e = cache.iter().find(|e| e.key == key).unwrap();
+    let scratch = Scratch::new("c04");
+    copy_dir(e.dir.path(), scratch.path());
+    let root = scratch.path().to_path_buf();
+    let mut prov = Prov { tracked: false, ..Default::default() };
+    for op in &case.ops[split..] {
+        if let Op::Fault { target, kind } = op {
+            apply_fault(&root, &e.id, *target, *kind, &[], &[]);
+            prov.live.entry(*target).or_default().push(kind_name(*kind));
+        }
+    }
+    Built { scratch, id: e.id.clone(), messages: e.messages.clone(), op_errors: e.op_errors, writer_checks: 0, writer_violations: vec![], ord_steps: vec![], prov }
+}
+fn build_uncached(case: &Case) -> Built {
     let scratch = Scratch::new("c04");
     let root = scratch.path().to_path_buf();
     let mut o = open(&root);
@@ -1636,6 +1696,165 @@ fn dense_cases(thorough: bool) -> Vec<Case> {
         .collect()
 }
 
+/// EVERY INDEX-ASSISTED READ AT EVERY POSITION RELATIVE TO THE INDEX'S STRIDE.
+/// The per-thread seek index holds one (seq, offset) entry per SEEK_STRIDE frames of the full sidecar; the full-sidecar
+/// window read (the compile input's producer when the messages+runs sidecar cannot be used) starts from "the greatest
+/// entry with seq <= target" twice (the cut's boundary, the window's first frame).  The message-id indexes are open-addressing
+/// tables that grow by doubling, the ordinal index is a flat record file, the checkpoint index a line per checkpoint.
+/// Threads of k x stride + a few frames (k = 1, 2, 3, ..; also exactly k x stride and k x stride + 1), every derived file
+/// knocked out in turn while the full sidecar and its seek index stay intact, and the queries anchored at every offset
+/// class relative to the stride: entry - 1, entry, entry + 1, .. entry + 20 (so that the window's first frame crosses the
+/// entry as well), mid-stride, around the last entry, the tail.  A sweep, not a sample; no randomness but the "+ a few".
+/// The base thread is built once per length (base cache), every variant is a copy of that store.
+const SEEK_STRIDE: u64 = 256; // continuity_seek_index.rs SEEK_INDEX_STRIDE_EVENTS_V1 (the seek files themselves carry it: checked below)
+fn stride_thread(total_frames: u64) -> Vec<Op> {
+    let mut ops = vec![];
+    let mut frames = 1u64; // continuity_created
+    let mut i = 0u64;
+    let mut runs = 0u64;
+    while frames < total_frames {
+        ops.push(Op::Msg { size: 20 });
+        frames += 1;
+        let extra = |ops: &mut Vec<Op>, o: Vec<Op>, frames: &mut u64| {
+            if *frames + o.len() as u64 <= total_frames {
+                *frames += o.len() as u64;
+                ops.extend(o);
+            }
+        };
+        if i % 37 == 5 {
+            runs += 1;
+            extra(&mut ops, vec![Op::RunSpawned { msg: i }, Op::RunEnded { msg: u64::MAX }], &mut frames);
+        }
+        if i % 101 == 60 {
+            extra(&mut ops, vec![Op::Selection], &mut frames);
+        }
+        if i == 3 || i % 200 == 150 {
+            extra(&mut ops, vec![Op::Cursor { key: 100 + (i % 3) * 100 }], &mut frames);
+        }
+        if i % 120 == 100 {
+            extra(&mut ops, vec![Op::Checkpoint { msg: i - 10 }], &mut frames);
+        }
+        if i % 53 == 20 {
+            extra(&mut ops, vec![Op::SideFx], &mut frames);
+        }
+        i += 1;
+    }
+    let _ = runs;
+    ops
+}
+fn stride_cases(thorough: bool, seed: u64) -> (Vec<Case>, Vec<u64>) {
+    use FaultKind::*;
+    use Target::*;
+    let few = 2 + seed % 41; // "+ a few": 2..42 frames past the last entry
+    // quick: ONE thread (3 strides + a few: four seek entries); thorough: 1x, 2x, 3x, 5x + a few, and the lengths at which
+    // the last frame IS an entry / the frame just behind one / the frame just in front of one
+    let lengths: Vec<u64> = if thorough {
+        vec![3 * SEEK_STRIDE + few + 1, SEEK_STRIDE + few + 1, 2 * SEEK_STRIDE + few + 1, 5 * SEEK_STRIDE + few + 1, 2 * SEEK_STRIDE + 1, 2 * SEEK_STRIDE + 2, 2 * SEEK_STRIDE, 4 * SEEK_STRIDE + 130]
+    } else {
+        vec![3 * SEEK_STRIDE + few + 1]
+    };
+    let mut out = vec![];
+    let mut keys = vec![];
+    for (li, total) in lengths.iter().enumerate() {
+        let ops = stride_thread(*total);
+        if ops.len() < BASE_CACHE_MIN_OPS && *total > BASE_CACHE_MIN_OPS as u64 {
+            continue;
+        }
+        // the seqs of the thread's messages, read from the log of the base store (built here, reused by every variant)
+        let probe = Case { ops: ops.clone(), queries: vec![], long: true };
+        if let Some((_, k)) = base_split(&probe) {
+            keys.push(k);
+        }
+        let b = build(&probe);
+        let abs = abstract_truth(b.scratch.path(), &b.id);
+        let mseq: Vec<u64> = b.messages.iter().filter_map(|m| abs.seq_of_event.get(m).copied()).collect();
+        if mseq.len() != b.messages.len() || mseq.is_empty() {
+            continue;
+        }
+        let n = mseq.len() as u64;
+        let last_seq = abs.truth.last().map(|e| e.seq).unwrap_or(0);
+        let entries: Vec<u64> = (1..=last_seq / SEEK_STRIDE).map(|k| k * SEEK_STRIDE).collect();
+        let idx_in = |lo: u64, hi: u64| -> Vec<u64> { mseq.iter().enumerate().filter(|(_, s)| **s >= lo && **s <= hi).map(|(i, _)| i as u64).collect() };
+        // full sweep: every message from 3 frames in front of an entry to 20 behind it, the middle of every stride, the first
+        // messages, the tail; thin sweep: entry - 1, entry, entry + 1 (nearest messages), mid-stride, the tail
+        let mut full: Vec<u64> = vec![];
+        let mut thin: Vec<u64> = vec![];
+        let (before, behind) = if thorough { (20, 40) } else { (3, 20) };
+        for e in &entries {
+            full.extend(idx_in(e.saturating_sub(before), e + behind));
+            thin.extend(idx_in(e.saturating_sub(2), e + 2));
+            thin.extend(idx_in(e + 17, e + 18)); // the window's first frame just behind the entry
+        }
+        for k in 0..=last_seq / SEEK_STRIDE {
+            let mid = k * SEEK_STRIDE + SEEK_STRIDE / 2;
+            full.extend(idx_in(mid, mid + 2));
+            thin.extend(idx_in(mid, mid + 1));
+        }
+        full.extend([0, 1, 15, 16, 17].iter().filter(|i| **i < n));
+        full.extend(n.saturating_sub(19)..n);
+        thin.extend([0, 16].iter().filter(|i| **i < n));
+        thin.extend([n.saturating_sub(17), n.saturating_sub(2), n - 1]);
+        for v in [&mut full, &mut thin] {
+            v.sort();
+            v.dedup();
+        }
+        // the other index-assisted reads: cut points at ordinals on both sides of the stride (ordinal index + message-id index),
+        // compaction status, selection status, cursor status, replay, cut resolution by seq / by message id at the last entry
+        let le = entries.last().copied().unwrap_or(0);
+        let at = |s: u64| idx_in(s, s + 3).first().copied().unwrap_or(0);
+        let mut other = vec![
+            Q::CutPoints { stride: SEEK_STRIDE - 1, limit: 8 }, Q::CutPoints { stride: SEEK_STRIDE, limit: 8 }, Q::CutPoints { stride: SEEK_STRIDE + 1, limit: 8 }, Q::CutPoints { stride: 64, limit: 32 }, Q::CutPoints { stride: 1, limit: 8 },
+            Q::CompactionStatus { stride: 64 }, Q::CompactionStatus { stride: SEEK_STRIDE },
+            Q::Selection { limit: 1 }, Q::Selection { limit: 10 }, Q::Selection { limit: 50 }, Q::CursorStatus, Q::Replay,
+        ];
+        if le > 0 {
+            other.extend([
+                Q::BranchCut { sel: Sel::Seq(le - 1) }, Q::BranchCut { sel: Sel::Seq(le) }, Q::HandoffCut { sel: Sel::Seq(le + 1) }, Q::BranchCut { sel: Sel::Msg(at(le)) }, Q::HandoffCut { sel: Sel::Msg(at(le.saturating_sub(SEEK_STRIDE / 2))) },
+            ]);
+        }
+        let mid_line = n / 2;
+        // (faults, full anchor sweep?)  The full sidecar and its seek index are never touched.
+        let mut variants: Vec<(Vec<Op>, bool)> = vec![
+            (vec![], false),
+            (vec![fault(Mr, Garbage)], true),                        // every anchor through the full-sidecar window: message-id index + seek index
+            (vec![fault(Mr, Garbage), fault(MsgIdx, Delete)], true), // ... the message-id index rebuilt by the read
+            (vec![fault(Mr, Delete), fault(MrSeek, Delete), fault(MrMsgIdx, Delete), fault(Ord, Delete)], false), // mr family lost: built from the full sidecar by the read
+            (vec![fault(MrMsgIdx, Delete), fault(MrSeek, Delete)], false),
+            (vec![fault(Mr, GarbageLine(mid_line))], false), // a damaged line in the middle: anchors behind it leave the mr window
+            (vec![fault(Ord, Delete)], false),
+            (vec![fault(Ord, Garbage)], false),
+            (vec![fault(Comp, Delete)], false),
+            (vec![fault(CompIdx, Delete)], false),
+            (vec![fault(CompIdx, Garbage), fault(Mr, Garbage)], false),
+        ];
+        if thorough {
+            variants.extend([
+                (vec![fault(Mr, Garbage), fault(MsgIdx, Garbage)], true),
+                (vec![fault(Mr, Garbage), fault(MrMsgIdx, Garbage), fault(MrSeek, Garbage), fault(Ord, Garbage)], true),
+                (vec![fault(Mr, TruncMidLine)], true),
+                (vec![fault(MrMsgIdx, Garbage)], true),
+                (vec![fault(MsgIdx, Delete)], false),
+                (vec![fault(Comp, Garbage)], true),
+                (vec![fault(Comp, Garbage), fault(Mr, Garbage)], true),
+                (vec![fault(Comp, Delete), fault(CompIdx, Delete), fault(Mr, Garbage), fault(Ord, Delete)], true),
+                (vec![fault(Mr, GarbageLine(mid_line / 2))], true),
+            ]);
+        }
+        for (vi, (faults, sweep)) in variants.into_iter().enumerate() {
+            let anchors = if sweep || (thorough && li == 0) { &full } else { &thin };
+            let mut queries: Vec<Q> = anchors.iter().map(|i| Q::Compile { msg: *i }).collect();
+            // the non-compile queries: on every variant that touches a file they read, and on the intact store
+            if vi == 0 || faults.iter().any(|f| matches!(f, Op::Fault { target: Ord | Comp | CompIdx | MrMsgIdx | MsgIdx, .. })) || faults.len() == 1 {
+                queries.extend(other.clone());
+            }
+            let mut o = ops.clone();
+            o.extend(faults);
+            out.push(Case { ops: o, queries, long: true });
+        }
+    }
+    (out, keys)
+}
+
 fn corpus_cases() -> Vec<Case> {
     let mut v = vec![];
     // S4: checkpoint sidecar re-created by append after delete
@@ -1842,11 +2061,15 @@ fn run_case(case: &Case) -> Outcome {
     let mut read_writer_violations: Vec<(usize, Target, String)> = vec![];
     let truth_ls = if case.long { vec![] } else { truth_lines(&root, &b.id) };
     let truth_ok = truth_ls.iter().enumerate().all(|(i, (e, _))| e.seq == i as u64);
+    let base_key = base_split(case).map(|(_, k)| k);
     for (qi, q) in case.queries.iter().enumerate() {
         if hung {
             break; // one hang per case is reported; the leaked thread keeps a core busy
         }
-        for r in [&fast_root, &truth_root] {
+        let memo_key = base_key.map(|k| (k, serde_json::to_string(q).unwrap()));
+        let memo_hit = memo_key.as_ref().and_then(|k| TRUTH_MEMO.lock().unwrap().get_or_insert_with(HashMap::new).get(k).cloned());
+        let roots: Vec<&PathBuf> = if memo_hit.is_some() { vec![&fast_root] } else { vec![&fast_root, &truth_root] };
+        for r in roots {
             let _ = std::fs::remove_dir_all(r);
             std::fs::create_dir_all(r.join("data")).unwrap();
             std::fs::copy(root.join("data").join("events.jsonl"), r.join("data").join("events.jsonl")).unwrap();
@@ -1880,7 +2103,17 @@ fn run_case(case: &Case) -> Outcome {
             second = Some(with_watchdog(secs, fast_root.clone(), b.id.clone(), b.messages.clone(), q.clone()));
         }
         again.push(second);
-        let truth = if fast == Ans::Hang { Ans::Err("not evaluated (fast path hung)".into()) } else { with_watchdog(secs, truth_root.clone(), b.id.clone(), b.messages.clone(), q.clone()) };
+        let truth = if fast == Ans::Hang {
+            Ans::Err("not evaluated (fast path hung)".into())
+        } else if let Some(t) = memo_hit {
+            t
+        } else {
+            let t = with_watchdog(secs, truth_root.clone(), b.id.clone(), b.messages.clone(), q.clone());
+            if let (Some(k), false) = (memo_key, matches!(t, Ans::Hang | Ans::Panic)) {
+                TRUTH_MEMO.lock().unwrap().get_or_insert_with(HashMap::new).insert(k, t.clone());
+            }
+            t
+        };
         hung = fast == Ans::Hang || truth == Ans::Hang;
         results.push((q.clone(), fast, truth));
     }
@@ -1924,9 +2157,15 @@ fn main() {
     let mut res = RunResult::new("C04", &a);
     res.rule = "case = (history of public-API appends / restarts with cache faults {Delete, TruncLines k, TruncMidLine, Garbage, Rollback k} on the 9 cache files, list of queries); every query runs twice on copies of the store (caches as found / continuity_streams removed) under a watchdog; non-trivial = at least one fault, or a thread longer than a tail window; distinct by hash of the canonical case".into();
     let mut cases: Vec<Case> = vec![];
+    let mut stride_keys: Vec<u64> = vec![];
     if let Some(rp) = &a.replay {
         let v: Value = serde_json::from_slice(&std::fs::read(rp).expect("replay file")).expect("json");
         cases.push(case_from_json(&v).expect("replay case"));
+    } else if a.extra.get("only").map(|s| s.as_str()) == Some("stride") {
+        // development aid: the stride family alone
+        let (sc, sk) = stride_cases(a.thorough(), a.seed);
+        cases.extend(sc);
+        stride_keys.extend(sk);
     } else {
         // corpus first
         let cdir = Path::new(env!("CARGO_MANIFEST_DIR")).join("..").join("corpus").join("C04");
@@ -1945,6 +2184,9 @@ fn main() {
         let mut r = Rng::new(a.seed);
         cases.extend(anchor_sweep_cases(a.thorough()));
         cases.extend(dense_cases(a.thorough()));
+        let (sc, sk) = stride_cases(a.thorough(), a.seed);
+        cases.extend(sc);
+        stride_keys.extend(sk);
         {
             let mut r2 = Rng::new(a.seed ^ 0x5eed_c044);
             cases.extend(lifecycle_cases(&mut r2, a.thorough()));
@@ -2023,6 +2265,12 @@ fn main() {
             eprintln!("timing case {ci}: long={} ops={} queries={} frames={} ms={}", case.long, case.ops.len(), case.queries.len(), out.abs.truth.len(), t0.elapsed().as_millis());
         }
         res.evaluations += 1;
+        if base_split(case).map(|(_, k)| stride_keys.contains(&k)).unwrap_or(false) {
+            res.bump("stride_family:stores (one base thread per length, copied per knock-out)");
+            res.bump_by("stride_family:queries", case.queries.len() as u64);
+            res.bump_by("stride_family:compile_anchors", case.queries.iter().filter(|q| matches!(q, Q::Compile { .. })).count() as u64);
+            res.bump(&format!("stride_family:frames={} (seek entries {})", out.abs.truth.len(), (out.abs.truth.len() as u64 + SEEK_STRIDE - 1) / SEEK_STRIDE));
+        }
         res.bump_by("op_errors", out.op_errors);
         let nf = case.ops.iter().filter(|o| matches!(o, Op::Fault { .. } | Op::LoseDir)).count();
         res.bump(&format!("faults={}", nf.min(4)));
@@ -2196,6 +2444,7 @@ fn main() {
     res.write(&a.out);
     println!("c04: {} histories, {} query evaluations, {} oracle violations {:?}", res.evaluations, res.oracle_checks, res.oracle_violations.len(), seen_classes);
     // leaked watchdog threads must not keep the process alive
+    base_cache_clear();
     std::process::exit(0);
 }
 
